@@ -22,7 +22,7 @@ ENV.update({"CARGO_NET_OFFLINE": "true", "CARGO_TERM_COLOR": "never"})
 
 TRUSTED_BASE_COMMON = [
     "Coq 8.16.1 kernel (coqc, full .vo builds; vm_compute used for finite computations; native_compute not used)",
-    "tools/translate.py (regex/expression translator from the Rust sources to coq/Gen/*.v)",
+    "tools/translate.py (translator from the Rust sources to coq/Gen/*.v: a small Rust front end - tokenizer, expression parser, evaluator - for the matcher crate, a function-body scanner with helper inlining and ordering resolution for boxcar.rs; unrecognised constructs are errors)",
     "extraction with ExtrOcamlBasic only (bool, option, unit, list, prod, sumbool -> OCaml types; no Extract Constant / Extract Inductive of our own), OCaml 4.13.1, the hand-written driver (ocaml/*.ml)",
     "the Rust correspondence harness (harness/*) and this check script (diff, oracle evaluation)",
     "axioms: none declared by the development; Print Assumptions output of every property theorem is compared with an allow-list on every run",
